@@ -58,6 +58,7 @@ class Path:
         self.bounded = None  # set to a label when a loop was unrolled to a bound on this path
         self.notes = []
         self.model_hook = None  # callable(model) -> json
+        self.seq_lens = []  # length terms of symbolic sequences (to ask the solver for small counter-models)
 
     # -- symbols
     def fresh(self, base: str) -> str:
@@ -154,6 +155,13 @@ class Path:
         elif r == z3.sat:
             verdict = "refuted"
             m = self.solver.model()
+            # prefer a small counter-model (short sequences) so that it can be replayed on the real code
+            if self.seq_lens:
+                for cap in (1, 2, 3):
+                    self.solver.set("timeout", 3000)
+                    if self.solver.check(neg, *[n <= cap for n in self.seq_lens]) == z3.sat:
+                        m = self.solver.model()
+                        break
             model = self.model_hook(m) if self.model_hook else None
         else:
             verdict = "unknown"
